@@ -39,6 +39,7 @@ TRUSTED_BASE = [
     "go2coq ClientGen (table of T-message literals per clientFile method), ConstGen (thresholds, masks, errno numbers), HandlerGen (handler traces: C03_handler_table, rename guard) and ResultGen (reply-field sources)",
     "props/C03.py to_case (observation -> Coq case), harness helpers vhclVerConn (version forced by rewriting the Tversion frame), vh03Flat (reflection flattening of values), vhclClassify (errors.As)",
     "hand-written Client/PathSeq.v (path-tree bookkeeping of renames), tied by the renseq cases",
+    "go2coq ErrnoGen (statement-by-statement translation of linux.ExtractErrno + errors_linux.go sysErrno over Errs.v's error trees; Client/ErrnoTie.v proves it equal to Errs.extract for every tree; errors.As/errors.Is = find/has are hand models)",
     "hand-written Client/ClientModel.v (interpreter, wire, handler_calls, expected) and Client/Errs.v, tied by harness/p9/c03_test.go, harness/linux/c03_errno_test.go, Client/ClientCases.v",
 ]
 
